@@ -62,6 +62,10 @@ impl SchemaNameValidator for TagValidator {
 
 impl SchemaNamespaceValidator for TagValidator {
     fn validate(&self, ns: &str) -> AvroResult<()> {
+        // besides accepting one extra namespace, this validator refuses one that is valid otherwise
+        if ns == format!("no{}", self.tag) {
+            return Err(Details::InvalidNamespace(ns.to_string(), "avrosim tag validator").into());
+        }
         if ns == special_name(Setting::Namespace, self.tag) || ns.is_empty() || ns.split('.').all(spec_ident) {
             Ok(())
         } else {
@@ -595,5 +599,9 @@ pub fn perform(op: &Op) -> Obs {
         Op::UseHr { path } => use_hr(path),
         Op::UseValidator { which, tag, direct } => use_validator(*which, *tag, *direct),
         Op::UseCmp { tag } => use_cmp(*tag),
+        Op::UseNamespaceInherited { tag } => {
+            let text = format!(r#"{{"type":"record","name":"no{tag}.Outer","fields":[{{"name":"f","type":{{"type":"fixed","name":"Inner","size":1}}}}]}}"#);
+            Obs::Bool(Schema::parse_str(&text).is_ok())
+        }
     }
 }
